@@ -132,6 +132,7 @@ type step struct {
 	Kind string // "field", "method", "index", "out" (k-th result of the preceding method)
 	Name string
 	Idx  int
+	Arg  *reflect.Value // "method": the single argument of a look-up method (nil: niladic)
 }
 
 type opath []step
@@ -143,7 +144,11 @@ func (p opath) String() string {
 		case "field":
 			b.WriteString("." + s.Name)
 		case "method":
-			b.WriteString("." + s.Name + "()")
+			if s.Arg != nil {
+				b.WriteString("." + s.Name + "(" + render(*s.Arg, 0) + ")")
+			} else {
+				b.WriteString("." + s.Name + "()")
+			}
 		case "index":
 			fmt.Fprintf(&b, "[%d]", s.Idx)
 		case "out":
@@ -154,6 +159,9 @@ func (p opath) String() string {
 }
 
 type walker struct {
+	// harvest (when non-nil): values found in the object itself, by type — option codes, enterprise numbers, … —
+	// used as arguments of the one-parameter look-up methods (Get, GetOne, Has, VendorOpt, Contains, …)
+	harvest map[reflect.Type][]reflect.Value
 	entries []obsEntry
 	paths   []opath // one per entry produced by a reflective method call
 	seen    map[string]bool
@@ -193,7 +201,11 @@ func execPath(root reflect.Value, p opath) (out string, panicked bool) {
 			if v.Kind() != reflect.Pointer && v.CanAddr() {
 				mv = v.Addr()
 			}
-			cur = mv.MethodByName(s.Name).Call(nil)
+			if s.Arg != nil {
+				cur = mv.MethodByName(s.Name).Call([]reflect.Value{*s.Arg})
+			} else {
+				cur = mv.MethodByName(s.Name).Call(nil)
+			}
 			if i == len(p)-1 {
 				var parts []string
 				for _, o := range cur {
@@ -294,6 +306,20 @@ func (w *walker) visitP(path string, op opath, v reflect.Value, depth int) {
 			}
 		}
 	}
+	// look-up methods with one parameter, called with what the object itself holds of that type (and a value it
+	// does not hold)
+	for i := 0; w.harvest != nil && i < mt.NumMethod(); i++ {
+		m := mt.Method(i)
+		if m.Type.NumIn() != 2 || m.Type.NumOut() == 0 || isMutatorName(m.Name) {
+			continue
+		}
+		for _, arg := range w.argsFor(m.Type.In(1)) {
+			arg := arg
+			name := path + "." + m.Name + "(" + render(arg, 0) + ")"
+			mp := ext(op, step{Kind: "method", Name: m.Name, Arg: &arg})
+			w.callP(name, mp, func() []reflect.Value { return mv.Method(i).Call([]reflect.Value{arg}) })
+		}
+	}
 	// exported fields of library types
 	sv := v
 	if sv.Kind() == reflect.Pointer {
@@ -311,6 +337,115 @@ func (w *walker) visitP(path string, op opath, v reflect.Value, depth int) {
 			}
 		}
 	}
+}
+
+// argsFor returns the arguments a one-parameter look-up method is called with: up to four distinct harvested values
+// of the parameter's type and one the object does not hold. Only numeric kinds, durations and the DHCPv4 option-code
+// interface are served; a method with any other parameter type is not called.
+func (w *walker) argsFor(pt reflect.Type) []reflect.Value {
+	var out []reflect.Value
+	seen := map[string]bool{}
+	add := func(v reflect.Value) {
+		if k := render(v, 0); !seen[k] && len(out) < 5 {
+			seen[k] = true
+			out = append(out, v)
+		}
+	}
+	v4code := reflect.TypeOf((*dhcpv4.OptionCode)(nil)).Elem()
+	switch {
+	case pt == v4code:
+		for _, h := range w.harvest[reflect.TypeOf(uint8(0))] {
+			if len(out) < 4 {
+				add(reflect.ValueOf(dhcpv4.GenericOptionCode(uint8(h.Uint()))))
+			}
+		}
+		add(reflect.ValueOf(dhcpv4.GenericOptionCode(254)))
+	case pt == reflect.TypeOf(time.Duration(0)):
+		add(reflect.ValueOf(time.Hour))
+	case pt.Kind() == reflect.Int:
+		add(reflect.ValueOf(0).Convert(pt))
+		add(reflect.ValueOf(3).Convert(pt))
+	case pt.Kind() == reflect.Uint8 || pt.Kind() == reflect.Uint16 || pt.Kind() == reflect.Uint32:
+		for _, h := range w.harvest[pt] {
+			if len(out) < 4 {
+				add(h)
+			}
+		}
+		add(reflect.ValueOf(uint64(65001)).Convert(pt))
+	}
+	return out
+}
+
+// harvestValues collects, by type, the unsigned integers an object holds (struct fields, slice elements, map keys
+// and the results of its niladic Code-like methods are all reached through the first, niladic walk's renderings; here
+// the object graph itself is walked).
+func harvestValues(root reflect.Value) map[reflect.Type][]reflect.Value {
+	h := map[reflect.Type][]reflect.Value{}
+	seen := map[uintptr]bool{}
+	n := 0
+	var walk func(v reflect.Value, depth int)
+	walk = func(v reflect.Value, depth int) {
+		if !v.IsValid() || depth > 8 || n > 4000 {
+			return
+		}
+		n++
+		switch v.Kind() {
+		case reflect.Pointer:
+			if v.IsNil() || seen[v.Pointer()] {
+				return
+			}
+			seen[v.Pointer()] = true
+			// the option's own code (DHCPv6 options carry it only as a method)
+			if m := v.MethodByName("Code"); m.IsValid() && m.Type().NumIn() == 0 && m.Type().NumOut() == 1 {
+				func() {
+					defer func() { _ = recover() }()
+					o := m.Call(nil)[0]
+					h[o.Type()] = append(h[o.Type()], o)
+				}()
+			}
+			walk(v.Elem(), depth+1)
+		case reflect.Interface:
+			if !v.IsNil() {
+				walk(v.Elem(), depth)
+			}
+		case reflect.Struct:
+			for i := 0; i < v.NumField(); i++ {
+				if v.Type().Field(i).IsExported() {
+					walk(v.Field(i), depth+1)
+				}
+			}
+		case reflect.Slice, reflect.Array:
+			if v.Type().Elem().Kind() == reflect.Uint8 {
+				return
+			}
+			for i := 0; i < min(v.Len(), 40); i++ {
+				walk(v.Index(i), depth+1)
+			}
+		case reflect.Map:
+			for _, k := range v.MapKeys() {
+				walk(k, depth+1)
+				walk(v.MapIndex(k), depth+1)
+			}
+		case reflect.Uint8, reflect.Uint16, reflect.Uint32:
+			h[v.Type()] = append(h[v.Type()], reflect.ValueOf(v.Interface()))
+		}
+	}
+	walk(root, 0)
+	// values that occur more than once first (a look-up by such a value has several matches), then ascending
+	for t, vs := range h {
+		cnt := map[uint64]int{}
+		for _, v := range vs {
+			cnt[v.Uint()]++
+		}
+		sort.SliceStable(vs, func(a, b int) bool {
+			if ca, cb := cnt[vs[a].Uint()], cnt[vs[b].Uint()]; ca != cb {
+				return ca > cb
+			}
+			return vs[a].Uint() < vs[b].Uint()
+		})
+		h[t] = vs
+	}
+	return h
 }
 
 // observeV4 runs the whole walk on a DHCPv4 packet.
